@@ -96,15 +96,25 @@ func checkC15(c *Ctx) {
 	{
 		fl := NewFlow(p, get)
 		n := 0
-		for _, b := range get.Blocks {
-			for _, s := range b.Succs {
-				for _, f := range fl.edgeFacts(b, s) {
-					if f.Op == "!=" && oneIsNil(f) && strings.HasPrefix(nonNil(f), kCCTry) {
-						n++
-						w := cfgSearch(fl, nil, s, isUnlockOrRet, isSignal, notFullEdge)
-						c.Check(w == nil, "C15.2", "Get: re-signal after extraction when another full batch remains", p.FuncPos(get),
-							"every path from a successful extraction to the end of the critical section calls signalReady or takes the !hasFullBatch() edge",
-							"after a successful extraction the lock can be released at "+posOf(p, w)+" with a full batch left and no signal")
+		// Get itself or the helper of its package that holds the critical section
+		for _, hf := range helperClosure(p, get, 2) {
+			if hf == try || hf == full || hf == sig || hf == dup {
+				continue
+			}
+			hfl := fl
+			if hf != get {
+				hfl = NewFlow(p, hf)
+			}
+			for _, b := range hf.Blocks {
+				for _, s := range b.Succs {
+					for _, f := range hfl.edgeFacts(b, s) {
+						if f.Op == "!=" && oneIsNil(f) && strings.HasPrefix(nonNil(f), kCCTry) {
+							n++
+							w := cfgSearch(hfl, nil, s, isUnlockOrRet, isSignal, notFullEdge)
+							c.Check(w == nil, "C15.2", "Get: re-signal after extraction when another full batch remains", p.FuncPos(get),
+								"every path from a successful extraction to the end of the critical section calls signalReady or takes the !hasFullBatch() edge",
+								"after a successful extraction the lock can be released at "+posOf(p, w)+" with a full batch left and no signal")
+						}
 					}
 				}
 			}
@@ -122,9 +132,17 @@ func checkC15(c *Ctx) {
 			exits = append(exits, e)
 		}
 		for _, e := range exits {
-			bk := fl.K.Key(retValue(e.Ret, 0))
-			if !(strings.HasPrefix(bk, kCCTry) && notNilOf(fl.At(e.Ret), is(bk))) {
-				bad = append(bad, p.Pos(e.Ret.Pos())+" returns "+bk)
+			var lvs []Leaf
+			withLeafStops(func() { lvs = leaves(fl, retValue(e.Ret, 0), e.Ret) }, try)
+			for _, lf := range lvs {
+				bk := lf.KeyIn(fl)
+				facts := lf.Facts.clone()
+				for f := range e.Facts {
+					facts[f] = true
+				}
+				if !(strings.HasPrefix(bk, kCCTry) && notNilOf(facts, is(bk))) {
+					bad = append(bad, p.Pos(e.Ret.Pos())+" returns "+bk)
+				}
 			}
 		}
 		c.Check(len(bad) == 0 && len(exits) > 0, "C15.3", "Get: a batch is returned only when extraction produced one", p.FuncPos(get),
@@ -271,7 +289,12 @@ func checkC15(c *Ctx) {
 						idx = fl.K.Key(ia.Index)
 					}
 				})
-				ok = ok && idx != "" && val == "p0->"+kCC+"cache["+idx+":<none>]"
+				direct := idx != "" && val == "p0->"+kCC+"cache["+idx+":<none>]"
+				if !direct {
+					// for-range form: a separate counter that advances in lock step with the range index
+					direct = c15LockStepCounter(fl, try, st)
+				}
+				ok = ok && direct
 				c.Check(ok, "C15.4", "tryExtractBatch: removes exactly the examined prefix, only for a full batch", p.InstrPos(in),
 					"cache = cache[extracted:] only under batch.isFull(), extracted being the loop's examination counter", "cache := "+val+"; facts: "+join(facts.Sorted()))
 			}
@@ -344,4 +367,95 @@ func checkC15(c *Ctx) {
 		c.whoMayWrite("C15.4", p.Field("internal/proto/clientpb", "CommandCache", "cache"), "CommandCache.cache",
 			"(*hs/internal/proto/clientpb.CommandCache).Add", "(*hs/internal/proto/clientpb.CommandCache).tryExtractBatch")
 	}
+}
+
+// c15LockStepCounter: the low bound of the truncation `cache = cache[e:]` is a counter e that
+// equals the number of examined elements of a `for _, cmd := range cache` loop: e and the range
+// index r are phis of the same loop header, (r, e) start at (-1, 0), every back edge carries
+// e+1 (r always advances), the element is cache[r+1], and the element is consumed (appended or
+// tested for being a duplicate) only after the increment, so that on an early exit before the
+// increment the current element is not counted and not consumed.
+func c15LockStepCounter(fl *Flow, fn *ssa.Function, st *ssa.Store) bool {
+	sl, ok := st.Val.(*ssa.Slice)
+	if !ok || sl.High != nil {
+		return false
+	}
+	e, ok := sl.Low.(*ssa.Phi)
+	if !ok {
+		return false
+	}
+	var r *ssa.Phi
+	var elemAddr *ssa.IndexAddr
+	eachInstr(fn, func(in ssa.Instruction) {
+		ia, ok := in.(*ssa.IndexAddr)
+		if !ok || fl.K.Key(ia.X) != "p0->"+kCC+"cache" {
+			return
+		}
+		if bo, ok := ia.Index.(*ssa.BinOp); ok && bo.Op == token.ADD {
+			if ph, ok := bo.X.(*ssa.Phi); ok && ph.Comment == "rangeindex" {
+				if cst, ok := bo.Y.(*ssa.Const); ok && cst.Value != nil && cst.Int64() == 1 {
+					r, elemAddr = ph, ia
+				}
+			}
+		}
+	})
+	if r == nil || r.Block() != e.Block() || len(r.Edges) != len(e.Edges) {
+		return false
+	}
+	var inc *ssa.BinOp
+	for i := range e.Edges {
+		if cst, ok := r.Edges[i].(*ssa.Const); ok && cst.Value != nil && cst.Int64() == -1 {
+			c0, ok := e.Edges[i].(*ssa.Const)
+			if !ok || c0.Value == nil || c0.Int64() != 0 {
+				return false
+			}
+			continue
+		}
+		bo, ok := e.Edges[i].(*ssa.BinOp)
+		if !ok || bo.Op != token.ADD || bo.X != ssa.Value(e) {
+			return false
+		}
+		if cst, ok := bo.Y.(*ssa.Const); !ok || cst.Value == nil || cst.Int64() != 1 {
+			return false
+		}
+		if inc != nil && inc != bo {
+			return false
+		}
+		inc = bo
+	}
+	if inc == nil {
+		return false
+	}
+	// consumption of the element only after the increment
+	okUse := true
+	var visit func(v ssa.Value, depth int)
+	visit = func(v ssa.Value, depth int) {
+		if v.Referrers() == nil || depth > 4 {
+			return
+		}
+		for _, u := range *v.Referrers() {
+			switch x := u.(type) {
+			case *ssa.UnOp:
+				visit(x, depth+1)
+			case *ssa.Store:
+				if x.Val == v {
+					if a, ok := x.Addr.(*ssa.Alloc); ok {
+						visit(a, depth+1)
+					} else if ia, ok := x.Addr.(*ssa.IndexAddr); ok {
+						// stored into the varargs array of an append
+						if !(inc.Block().Dominates(x.Block())) {
+							okUse = false
+						}
+						_ = ia
+					}
+				}
+			case ssa.CallInstruction:
+				if !(inc.Block().Dominates(x.Block())) {
+					okUse = false
+				}
+			}
+		}
+	}
+	visit(elemAddr, 0)
+	return okUse
 }
